@@ -17,7 +17,7 @@
    C08_lossless_attr_refuted; the proved versions state the excluded class explicitly. *)
 From Coq Require Import List NArith Bool String.
 From BS Require Import Base.Sexp Base.Types Base.Lit Base.Reader Gen.Tables Gen.Stdlib Gen.Entities Gen.T_C08
-     Spec.Utf8 Model.Encode Proofs.EncodeProofs Proofs.Utf8Codec.
+     Spec.Utf8 Model.Encode Proofs.EncodeProofs Proofs.Utf8Codec Proofs.EncodeCompose.
 Import ListNotations.
 Open Scope N_scope.
 
@@ -225,6 +225,133 @@ Proof.
   split; [apply id_codec_ascii_ok; discriminate|]. split; [apply id_codec_dec_ok|].
   split; [reflexivity | intros _; reflexivity].
 Qed.
+
+(* ------------------------------------------------------------------ *)
+(* 3b. end to end with C09's model of the formatter and C09's readers  *)
+(* ------------------------------------------------------------------ *)
+(* ES = Model.EntitySubst (substitute_xml / substitute_html / quoted_attribute_value / unescape = the full
+   html.unescape model / read_quoted = quote delimiting + unescape), SQ.read_text = the element-text reader of
+   C09 and C19, ESp.enc = C09's relation "o is s written with known &name; references". C09's theorems
+   (minimal_escaped, xml_enc, html_enc, enc_replace_dq, read_quoted_wf, unescape_ref ...) discharge everything
+   about the substitution; the hypotheses left are the codec's: it writes ASCII, its decoder inverts strict
+   encoding, and (the excluded class of finding C08-c1-nonchar-reference) the characters it cannot represent lie
+   in U+00A0..U+10FFFF (attribute values: and are no surrogates / noncharacters). *)
+
+(* the two developments model the same functions *)
+Theorem C08_models_agree :
+  (forall s, SQ.read_text s = read_text s) /\
+  (forall n, ES.replace_numeric n = num_attr n) /\
+  (forall s, ES.substitute_xml s false = Some (subst_xml s)) /\
+  (forall v, ES.substitute_xml v true = Some (quoted_attribute_value (subst_xml v))) /\
+  (forall v, ES.quoted_attribute_value v = quoted_attribute_value v).
+Proof.
+  exact (conj text_reader_same (conj num_attr_same (conj subst_xml_same (conj subst_xml_quoted_same quoted_same)))).
+Qed.
+Print Assumptions C08_models_agree.
+
+(* html.unescape (C09's model) on a decimal reference *)
+Theorem C08_unescape_decimal_reference : forall c r,
+  ES.unescape_go O (charref c ++ r) = ES.replace_numeric c ++ ES.unescape_go O r.
+Proof. exact unescape_charref. Qed.
+Print Assumptions C08_unescape_decimal_reference.
+
+(* any escaped text (what both formatters produce), replaced, reads back through both of C09's readers *)
+Theorem C08_escaped_text_survives_replacement : forall enc_char, ascii_ok enc_char -> forall o s, ESp.enc o s ->
+  ((forall c, In c s -> encodable enc_char c = false -> SQ.num_text c = [c]) ->
+   SQ.read_text (xcr_text enc_char o) = s) /\
+  ((forall c, In c s -> encodable enc_char c = false -> ES.replace_numeric c = [c]) ->
+   ES.unescape (xcr_text enc_char o) = s /\
+  ES.read_quoted (xcr_text enc_char (ES.quoted_attribute_value o)) = Some s).
+Proof.
+  exact (fun e Ha o s He => conj (xcr_enc_read_text e Ha o s He)
+           (fun Hn => conj (xcr_enc_unescape e Ha o s He Hn) (xcr_enc_read_quoted e Ha o s He Hn))).
+Qed.
+Print Assumptions C08_escaped_text_survives_replacement.
+
+(* formatter 'minimal': substitute -> encode(xmlcharrefreplace) -> decode -> read back = original *)
+Theorem C08_lossless_text_minimal : forall enc_char, ascii_ok enc_char -> forall bom dec,
+  (forall u b, enc_strict enc_char u = Some b -> dec (bom ++ b) = Some u) ->
+  forall t, (forall c, In c t -> encodable enc_char c = false -> 160 <= c <= 1114111) ->
+  exists o b d, ES.substitute_xml t false = Some o /\
+  str_encode enc_char bom XmlCharRef o = Some b /\ dec b = Some d /\ SQ.read_text d = t.
+Proof. exact lossless_text_minimal. Qed.
+Print Assumptions C08_lossless_text_minimal.
+
+Theorem C08_lossless_attr_minimal : forall enc_char, ascii_ok enc_char -> forall bom dec,
+  (forall u b, enc_strict enc_char u = Some b -> dec (bom ++ b) = Some u) ->
+  forall v, (forall c, In c v -> encodable enc_char c = false ->
+                       160 <= c <= 1114111 /\ is_surrogate c = false /\ is_nonchar c = false) ->
+  exists q b d, ES.substitute_xml v true = Some q /\
+                str_encode enc_char bom XmlCharRef q = Some b /\ dec b = Some d /\ ES.read_quoted d = Some v.
+Proof. exact lossless_attr_minimal. Qed.
+Print Assumptions C08_lossless_attr_minimal.
+
+(* formatter 'html' *)
+Theorem C08_lossless_text_html : forall enc_char, ascii_ok enc_char -> forall bom dec,
+  (forall u b, enc_strict enc_char u = Some b -> dec (bom ++ b) = Some u) ->
+  forall t, (forall c, In c t -> encodable enc_char c = false -> 160 <= c <= 1114111) ->
+  exists b d, str_encode enc_char bom XmlCharRef (ES.substitute_html t) = Some b /\ dec b = Some d /\
+              SQ.read_text d = t.
+Proof. exact lossless_text_html. Qed.
+Print Assumptions C08_lossless_text_html.
+
+Theorem C08_lossless_attr_html : forall enc_char, ascii_ok enc_char -> forall bom dec,
+  (forall u b, enc_strict enc_char u = Some b -> dec (bom ++ b) = Some u) ->
+  forall v, (forall c, In c v -> encodable enc_char c = false ->
+                       160 <= c <= 1114111 /\ is_surrogate c = false /\ is_nonchar c = false) ->
+  exists b d, str_encode enc_char bom XmlCharRef (ES.quoted_attribute_value (ES.substitute_html v)) = Some b /\
+              dec b = Some d /\ ES.read_quoted d = Some v.
+Proof. exact lossless_attr_html. Qed.
+Print Assumptions C08_lossless_attr_html.
+
+(* C09's html.unescape model and C08's reference reader agree on what 'minimal' writes *)
+Theorem C08_attr_readers_agree_minimal : forall enc_char, ascii_ok enc_char ->
+  forall v, (forall c, In c v -> encodable enc_char c = false ->
+                       160 <= c <= 1114111 /\ is_surrogate c = false /\ is_nonchar c = false) ->
+  let w := subst_xml v in
+  ES.unescape (xcr_text enc_char (attr_body w)) = v /\ read_attr (xcr_text enc_char (attr_body w)) = v.
+Proof. exact attr_readers_agree_minimal. Qed.
+Print Assumptions C08_attr_readers_agree_minimal.
+
+(* closed instances: NO hypothesis about the codec. UTF-8: element text of EVERY Python str (code points up to
+   U+10FFFF; a lone surrogate goes out as a reference and comes back), attribute values of scalar values *)
+Theorem C08_utf8_lossless_minimal : forall t, (forall c, In c t -> c <= 1114111) ->
+  exists o b d, ES.substitute_xml t false = Some o /\
+                str_encode utf8_codec [] XmlCharRef o = Some b /\ utf8_dec b = Some d /\ SQ.read_text d = t.
+Proof. exact utf8_lossless_text_minimal. Qed.
+Print Assumptions C08_utf8_lossless_minimal.
+
+Theorem C08_utf8_lossless_attr_minimal : forall v, forallb scalar v = true ->
+  exists q b d, ES.substitute_xml v true = Some q /\
+                str_encode utf8_codec [] XmlCharRef q = Some b /\ utf8_dec b = Some d /\ ES.read_quoted d = Some v.
+Proof. exact utf8_lossless_attr_minimal. Qed.
+Print Assumptions C08_utf8_lossless_attr_minimal.
+
+Theorem C08_utf8_lossless_html : forall t, forallb scalar t = true ->
+  (exists b d, str_encode utf8_codec [] XmlCharRef (ES.substitute_html t) = Some b /\ utf8_dec b = Some d /\
+               SQ.read_text d = t) /\
+  (exists b d, str_encode utf8_codec [] XmlCharRef (ES.quoted_attribute_value (ES.substitute_html t)) = Some b /\
+               utf8_dec b = Some d /\ ES.read_quoted d = Some t).
+Proof. exact utf8_lossless_html. Qed.
+Print Assumptions C08_utf8_lossless_html.
+
+Theorem C08_utf8_sig_lossless_minimal : forall t, forallb scalar t = true ->
+  (exists o b d, ES.substitute_xml t false = Some o /\ str_encode utf8_codec utf8_bom XmlCharRef o = Some b /\
+                 utf8_sig_dec b = Some d /\ SQ.read_text d = t) /\
+  (exists q b d, ES.substitute_xml t true = Some q /\ str_encode utf8_codec utf8_bom XmlCharRef q = Some b /\
+                 utf8_sig_dec b = Some d /\ ES.read_quoted d = Some t).
+Proof. exact utf8_sig_lossless_minimal. Qed.
+Print Assumptions C08_utf8_sig_lossless_minimal.
+
+(* ASCII (B = 128) and ISO-8859-1 (B = 256) *)
+Theorem C08_identity_codec_lossless_minimal : forall B t, 128 <= B ->
+  (forall c, In c t -> c < B \/ (160 <= c <= 1114111 /\ is_surrogate c = false /\ is_nonchar c = false)) ->
+  (exists o b d, ES.substitute_xml t false = Some o /\ str_encode (id_codec B) [] XmlCharRef o = Some b /\
+                 id_dec B b = Some d /\ SQ.read_text d = t) /\
+  (exists q b d, ES.substitute_xml t true = Some q /\ str_encode (id_codec B) [] XmlCharRef q = Some b /\
+                 id_dec B b = Some d /\ ES.read_quoted d = Some t).
+Proof. exact identity_lossless_minimal. Qed.
+Print Assumptions C08_identity_codec_lossless_minimal.
 
 (* ------------------------------------------------------------------ *)
 (* 4. <meta>: rewritten with a target encoding                         *)
